@@ -281,10 +281,10 @@ def inst_plan_int(m, lo=1):
 # ------------------------------------------------------------------ (e) sliced chunk helpers
 
 
-def inst_sliced_chunks(m, ps, pe, step):
+def inst_sliced_chunks(m, ps, pe, step, lo=1):
     def body(E):
         w = W(E)
-        cs, n = _plan_setup(E, m, 1)
+        cs, n = _plan_setup(E, m, lo)
         slc = E.slice(mk(E, "start", ps), mk(E, "stop", pe), step)
         res = w.fn(B, "_compute_sliced_chunks")(cs, slc, n)
         E.observe("res", list(res))
@@ -305,8 +305,8 @@ def inst_sliced_chunks(m, ps, pe, step):
                 ref = [0]
             E.ensure("pieces", EQ(tuple(res), tuple(ref)))
 
-    return Instance(f"_compute_sliced_chunks[blocks={m},start={ps},stop={pe},step={step}]", body,
-                    dict(blocks=m, start=ps, stop=pe, step=step), unit="_compute_sliced_chunks")
+    return Instance(f"_compute_sliced_chunks[blocks={m},start={ps},stop={pe},step={step}{',zero-width chunks allowed' if lo == 0 else ''}]", body,
+                    dict(blocks=m, start=ps, stop=pe, step=step, min_chunk=lo), unit="_compute_sliced_chunks")
 
 
 def inst_slice_chunks(m):
@@ -411,4 +411,7 @@ def instances(tier):
             for ps, pe in itertools.product((0, 1), repeat=2):
                 out.append(inst_sliced_chunks(m, ps, pe, st))
         out.append(inst_slice_chunks(m))
+    # zero-width blocks inside the window are dropped, as SliceSlicesIntegers.chunks (new_blockdim) drops them
+    out.append(inst_sliced_chunks(3, 1, 1, None, lo=0))
+    out.append(inst_sliced_chunks(3, 1, 1, 1, lo=0))
     return out
